@@ -945,3 +945,172 @@ def inline_new_helpers(tree, modname):
                 _fold_temps(n)
     ast.fix_missing_locations(tree)
     return inl.log
+
+
+# ------------------------------------------------------------------ pass-through wrappers
+_REG = ("addCallback", "addErrback", "addBoth", "addCallbacks")
+
+
+def _chain_root(e):
+    regs = []
+    while isinstance(e, ast.Call) and isinstance(e.func, ast.Attribute) and e.func.attr in _REG:
+        regs.append(e)
+        e = e.func.value
+    return e, regs
+
+
+def _is_identity(fnode, skip_self):
+    """Every path of the callable returns its first (result) parameter unchanged and it never raises or yields."""
+    if isinstance(fnode, ast.Lambda):
+        ps = [a.arg for a in fnode.args.args]
+        return bool(ps) and isinstance(fnode.body, ast.Name) and fnode.body.id == ps[0]
+    ps = [a.arg for a in fnode.args.args]
+    if skip_self:
+        ps = ps[1:]
+    if not ps or fnode.decorator_list:
+        return False
+    p = ps[0]
+    rets = 0
+    for n in _shallow(fnode.body):
+        if isinstance(n, (ast.Raise, ast.Yield, ast.YieldFrom, ast.Await)):
+            return False
+        if isinstance(n, ast.Return):
+            if not (isinstance(n.value, ast.Name) and n.value.id == p):
+                return False
+            rets += 1
+        if isinstance(n, (ast.Assign, ast.AugAssign, ast.AnnAssign)):
+            tg = n.targets if isinstance(n, ast.Assign) else [n.target]
+            if any(isinstance(x, ast.Name) and x.id == p for t in tg for x in ast.walk(t)):
+                return False
+    return rets >= 1 and isinstance(fnode.body[-1], ast.Return)
+
+
+def _passthrough_param(fn, cls):
+    """`fn` hands back the Deferred it was given (parameter name returned) after book-keeping that cannot change its
+    outcome: every return is a registration chain rooted at the same parameter, every callback registered on that
+    parameter returns its argument on all paths, the parameter is never rebound, fired or cancelled."""
+    got = _params(fn)
+    kind = _decorator_kind(fn)
+    if got is None or kind is None:
+        return None
+    ps = got[0]
+    if cls is not None and kind == "plain":
+        ps = ps[1:]
+    if not ps:
+        return None
+    nested = {n.name: n for n in fn.body if isinstance(n, FUNC)}
+    methods = {n.name: n for n in cls.body if isinstance(n, FUNC)} if cls is not None else {}
+
+    def identity(expr):
+        if isinstance(expr, ast.Lambda):
+            return _is_identity(expr, False)
+        if isinstance(expr, ast.Name) and expr.id in nested:
+            return _is_identity(nested[expr.id], False)
+        if isinstance(expr, ast.Attribute) and isinstance(expr.value, ast.Name) and expr.value.id == "self" and expr.attr in methods:
+            return _is_identity(methods[expr.attr], True)
+        return False
+
+    param = None
+    n_ret = 0
+    for n in _shallow([s for s in fn.body if not isinstance(s, FUNC)]):
+        if isinstance(n, (ast.Yield, ast.YieldFrom, ast.Await)):
+            return None
+        if isinstance(n, ast.Return):
+            if n.value is None:
+                return None
+            root, _regs = _chain_root(n.value)
+            if not (isinstance(root, ast.Name) and root.id in ps) or (param is not None and root.id != param):
+                return None
+            param = root.id
+            n_ret += 1
+    if param is None or not isinstance(fn.body[-1], ast.Return):
+        return None
+    for n in _shallow([s for s in fn.body if not isinstance(s, FUNC)]):
+        if isinstance(n, (ast.Assign, ast.AugAssign, ast.AnnAssign, ast.For, ast.With)):
+            tgs = n.targets if isinstance(n, ast.Assign) else [getattr(n, "target", None)] if not isinstance(n, ast.With) else [
+                i.optional_vars for i in n.items]
+            if any(isinstance(x, ast.Name) and x.id == param for t in tgs if t is not None for x in ast.walk(t)):
+                return None
+        if isinstance(n, ast.Call) and isinstance(n.func, ast.Attribute) and isinstance(n.func.value, ast.Name) and n.func.value.id == param:
+            if n.func.attr in _REG:
+                cbs = list(n.args[:2] if n.func.attr == "addCallbacks" else n.args[:1]) + [
+                    k.value for k in n.keywords if k.arg in ("callback", "errback")]
+                if not cbs or not all(identity(c) for c in cbs):
+                    return None
+            elif n.func.attr in ("callback", "errback", "cancel", "addTimeout", "chainDeferred", "pause", "unpause"):
+                return None
+    # registrations further down a returned chain (d.addBoth(f).addErrback(g)) have a Call receiver: check them too
+    for n in _shallow([s for s in fn.body if not isinstance(s, FUNC)]):
+        if isinstance(n, ast.Return):
+            _root, regs = _chain_root(n.value)
+            for c in regs:
+                cbs = list(c.args[:2] if c.func.attr == "addCallbacks" else c.args[:1]) + [
+                    k.value for k in c.keywords if k.arg in ("callback", "errback")]
+                if not cbs or not all(identity(x) for x in cbs):
+                    return None
+    return param
+
+
+def strip_passthrough_wrappers(tree, modname):
+    """`self.w(<deferred>)` -> `<deferred>` at every call site of a method (or module function) `w` that returns the
+    Deferred it was given after book-keeping that cannot change its outcome (see _passthrough_param).  The wrapper
+    itself stays in the unit; `tree._wrapped` maps id(<deferred> node) -> qualified wrapper name for the rules that
+    care about the book-keeping (e.g. which pending operations close() can reach)."""
+    log = []
+    wrapped = {}
+    cands = {}
+    for n in tree.body:
+        if isinstance(n, FUNC):
+            p = _passthrough_param(n, None)
+            if p is not None:
+                cands[(None, n.name)] = (n, p)
+        elif isinstance(n, ast.ClassDef):
+            for m in n.body:
+                if isinstance(m, FUNC):
+                    p = _passthrough_param(m, n)
+                    if p is not None:
+                        cands[(n.name, m.name)] = (m, p)
+    tree._wrapped = wrapped
+    if not cands:
+        return log
+
+    class T(ast.NodeTransformer):
+        def __init__(self):
+            self.cls = None
+
+        def visit_ClassDef(self, node):
+            prev, self.cls = self.cls, node.name
+            self.generic_visit(node)
+            self.cls = prev
+            return node
+
+        def visit_Call(self, node):
+            self.generic_visit(node)
+            key = None
+            if isinstance(node.func, ast.Attribute) and isinstance(node.func.value, ast.Name) and node.func.value.id == "self" and (
+                    self.cls, node.func.attr) in cands:
+                key = (self.cls, node.func.attr)
+                skip = 1 if _decorator_kind(cands[key][0]) == "plain" else 0
+            elif isinstance(node.func, ast.Name) and (None, node.func.id) in cands:
+                key = (None, node.func.id)
+                skip = 0
+            if key is None or any(isinstance(a, ast.Starred) for a in node.args) or any(k.arg is None for k in node.keywords):
+                return node
+            fn, p = cands[key]
+            names = [a.arg for a in fn.args.args][skip:]
+            idx = names.index(p) if p in names else None
+            arg = None
+            if idx is not None and idx < len(node.args):
+                arg = node.args[idx]
+            else:
+                for k in node.keywords:
+                    if k.arg == p:
+                        arg = k.value
+            if arg is None:
+                return node
+            wrapped[id(arg)] = "%s%s" % ((key[0] + ".") if key[0] else "", key[1])
+            log.append("pass-through wrapper %s%s stripped at line %d" % ((key[0] + ".") if key[0] else "", key[1], getattr(node, "lineno", 0)))
+            return arg
+
+    T().visit(tree)
+    return log
